@@ -51,7 +51,7 @@ up to UNIT and beyond) for u64/9 and u128/20; the real PoolDelta::price_impact, 
 same-side ⇒ ≥0, cross-over improved negative only as the known class pf<nf within its tight residual bound, (iii) Δ then −Δ sums \
 to ≤ 0 (+1 last-digit rounding unit for same-side trips, 0 for cross-over), (iv) adjusted_factors = (min(pf,nf),nf), (v) result with \
 virtual inventory == min(real, virtual) when real<0, == real otherwise. non-trivial = a leg returned a non-zero impact; distinct = \
-hash(site,type,pool,prices,delta,params) over the first 20000 non-trivial legs per shard (lower bound).";
+hash(site,type,pool,prices,delta,params) over the first 1.9e6/(2·shards) non-trivial legs per shard and type (memory bound: a lower bound).";
 
 struct Cx<'a> {
     m: &'a mut Monitor,
@@ -62,7 +62,7 @@ struct Cx<'a> {
 
 impl Cx<'_> {
     fn viol_sig(&mut self, site: &'static str, sig: &str, w: Value) {
-        self.t.hit(site, "violations");
+        self.t.hit(site, "flagged(incl. known class)");
         self.m.violation(sig, w);
     }
     fn nontrivial(&mut self, site: &'static str, words: &[u128]) {
@@ -301,8 +301,11 @@ fn bc_name(b: &BalanceChange) -> &'static str {
     }
 }
 
-/// Clauses (i), (ii), (ii') on one returned impact. `check_bc`: the returned balance change refers
-/// to this classification (false when the value may come from the virtual pool).
+/// Clauses (i), (ii), (ii') on one returned impact. `bc`: the returned balance change if it refers
+/// to this classification; `None` for the final value of a call with virtual inventory (it may
+/// come from the virtual pool). For such a final value a negative impact of an improving
+/// cross-over trade is not judged again: it is only reachable when the real impact was already
+/// negative (judged on the real value) and then follows from clause (v).
 #[allow(clippy::too_many_arguments)]
 fn sign_clauses(
     cx: &mut Cx,
@@ -314,6 +317,7 @@ fn sign_clauses(
     unit: u128,
     w: &dyn Fn() -> Value,
 ) {
+    let final_with_virtual = bc.is_none();
     cx.m.eval();
     cx.t.hit(site, cls.kind());
     if impact.is_positive() {
@@ -345,6 +349,8 @@ fn sign_clauses(
             if impact.is_negative() {
                 if cls.same_side {
                     cx.viol_sig(site, "C03:same_side:improved:negative_impact", wit(Value::Null));
+                } else if final_with_virtual {
+                    cx.t.hit(site, "cross_over_improved_negative(follows from negative real impact and clause v)");
                 } else if par.pf < par.nf {
                     // Literal reading of the property: an improving trade got a negative impact.
                     let ub = bu(unit);
@@ -847,12 +853,12 @@ fn case_position<T: Mk<D>, const D: u8>(cx: &mut Cx, rng: &mut Rng) {
     }
 }
 
-fn shard_run<T: Mk<D>, const D: u8>(seed: u64, shard: u64, n: u64, m: &mut Monitor) {
+fn shard_run<T: Mk<D>, const D: u8>(seed: u64, shard: u64, shards: u64, n: u64, m: &mut Monitor) {
     let mut rng = Rng::derive(seed, shard, fnv(T::NAME.as_bytes()) ^ 0xC03);
     let mut cx = Cx {
         m,
         t: Tally::default(),
-        d: Distinct::new(20_000),
+        d: Distinct::new(Distinct::budget_for(shards)),
         ty: T::NAME,
     };
     for i in 0..n {
@@ -871,12 +877,12 @@ pub fn run(args: &Args) -> i32 {
     let shards = args.scale(64, 256);
     let per_shard_per_type = match args.extra.get("cases").and_then(|s| s.parse::<u64>().ok()) {
         Some(n) => n,
-        None => args.scale(60_000, 200_000),
+        None => args.scale(600_000, 1_800_000),
     };
     let seed = args.seed;
     run_shards(&mut mon, args.threads, shards, |shard, m| {
-        shard_run::<u64, 9>(seed, shard, per_shard_per_type, m);
-        shard_run::<u128, 20>(seed, shard, per_shard_per_type, m);
+        shard_run::<u64, 9>(seed, shard, shards, per_shard_per_type, m);
+        shard_run::<u128, 20>(seed, shard, shards, per_shard_per_type, m);
     });
     mon.assume("impact exponents are whole units 0..4 (the property quantifies over unit multiples; non-unit exponents use the approximate rust_decimal path)");
     mon.assume("token prices are used with min == max inside PoolDelta (it takes a single price per token)");
